@@ -46,11 +46,23 @@ static void save_tour (const struct lines *l, const char *dir, const char *prop,
 	fclose (f);
 }
 
+#define FLUSH_PENDING() do { if (have_pending && !diverged) { \
+		h->obs (got, sizeof got); \
+		if (strcmp (got, pend_exp) != 0) { \
+			diverged = 1; st->mismatches++; \
+			if (!st->first_mismatch[0]) \
+				snprintf (st->first_mismatch, sizeof st->first_mismatch, \
+					  "tour %ld step %ld label %s thread %d: state after the step differs: spec {%s} code {%s}", tour_id, pend_step, pend_label, pend_actor, pend_exp, got); \
+		} \
+		snprintf (prev, sizeof prev, "%s", pend_exp); \
+	} have_pending = 0; } while (0)
 int rp_run (FILE *sched, const struct rp_harness *h, struct rp_stats *st, const char *viol_dir, const char *prop) {
 	char *line = NULL; size_t cap = 0;
 	struct lines cur = { 0, 0, 0 };
 	char prev[1024] = "", got[1024], why[256];
-	int in_tour = 0, diverged = 0;
+	int in_tour = 0, diverged = 0, have_pending = 0, pend_actor = 0;
+	long pend_step = 0;
+	char pend_exp[1024] = "", pend_label[64] = "";
 	long tour_id = 0, stepno = 0;
 	while (getline (&line, &cap, sched) > 0) {
 		if (line[0] == 'T') {
@@ -63,7 +75,7 @@ int rp_run (FILE *sched, const struct rp_harness *h, struct rp_stats *st, const 
 			{ char tmp[1200]; snprintf (tmp, sizeof tmp, "T %ld %s\n", tour_id, init); push (&cur, tmp); }
 			rt_reset ();
 			h->setup (init);
-			in_tour = 1; diverged = 0; stepno = 0; nontrivial_flag = 0; prev[0] = 0;
+			in_tour = 1; diverged = 0; stepno = 0; nontrivial_flag = 0; prev[0] = 0; have_pending = 0;
 			st->tours++;
 		} else if (line[0] == 'S' && in_tour) {
 			int actor = 0, off = 0;
@@ -73,9 +85,12 @@ int rp_run (FILE *sched, const struct rp_harness *h, struct rp_stats *st, const 
 			if (sscanf (line, "S %d %63s %n", &actor, label, &off) < 2) continue;
 			exp = line + off;
 			line[strcspn (line, "\n")] = 0;
+			if (!(actor != 0 && strlen (label) > 2 && strcmp (label + strlen (label) - 2, "_l") == 0)) FLUSH_PENDING ();
 			stepno++; st->steps++;
 			if (actor == 0) {
 				h->env (label, exp);
+			} else if (strlen (label) > 2 && strcmp (label + strlen (label) - 2, "_l") == 0) {
+				/* local step of the specification: no shared operation, nothing to execute */
 			} else {
 				int t = actor - 1, choice;
 				why[0] = 0;
@@ -92,7 +107,7 @@ int rp_run (FILE *sched, const struct rp_harness *h, struct rp_stats *st, const 
 					}
 					continue;
 				}
-				if (choice < 0) {
+				if (choice < 0 && label[0] != '*') {
 					if (!diverged) {
 						diverged = 1; st->mismatches++;
 						if (!st->first_mismatch[0])
@@ -100,22 +115,21 @@ int rp_run (FILE *sched, const struct rp_harness *h, struct rp_stats *st, const 
 					}
 					choice = 0;
 				}
+				if (choice < 0) choice = 0;
 				rt_grant_choice (t, choice);
 				rp_note_label (label, rt_last (t)->mo, rt_last (t)->fmo, rt_last (t)->kind);
 				if (h->post) h->post (actor, label);
 				if (h->learn && !diverged) h->learn (actor, label, exp);
 			}
-			if (!diverged) {
-				h->obs (got, sizeof got);
-				if (strcmp (got, exp) != 0) {
-					diverged = 1; st->mismatches++;
-					if (!st->first_mismatch[0])
-						snprintf (st->first_mismatch, sizeof st->first_mismatch,
-							  "tour %ld step %ld label %s thread %d: state after the step differs: spec {%s} code {%s}", tour_id, stepno, label, actor, exp, got);
-				}
-				snprintf (prev, sizeof prev, "%s", exp);
+			/* the state is compared once the specification's eager local steps that follow have been consumed */
+			have_pending = !diverged && exp[0] != '*';
+			if (have_pending) {
+				snprintf (pend_exp, sizeof pend_exp, "%s", exp);
+				snprintf (pend_label, sizeof pend_label, "%s", label);
+				pend_actor = actor; pend_step = stepno;
 			}
 		} else if (line[0] == 'E' && in_tour) {
+			FLUSH_PENDING ();
 			in_tour = 0;
 			h->finish (diverged);
 			if (diverged) st->diverged_tours++; else st->matched_tours++;
